@@ -85,6 +85,11 @@ def check(ctx):
     # one observer attached to two sources (directly / behind operators): values, at most one terminal, then silence; the rest dropped
     rows = R.run_kind(ctx, 'sharedobs', shards=2)
     R.compare(ctx, rows, proj_all, 'C01 one observer attached through Subscribe to two sources', oracle=oracle_grammar, oracle_is_property=True, nontrivial=lambda c, gd: True, max_report=2)
+    # the partial observers (OnNext / OnError / OnComplete / Noop) and NewObserver driven directly with raw scripts: the user's callback
+    # sees the notifications of its kind in the gated script, the rest goes to the dropped hook (RoModel/ObsPartial.lean, C01.partial_observer_sees)
+    rows = [r for r in R.run_kind(ctx, 'nilobs', shards=2) if ' ctor=' in r[0] and ' faults=- ' in r[0] + ' ']
+    R.compare(ctx, rows, proj_all, 'C01 partial observers: what the one callback and the dropped-notification hook saw', oracle=oracle_grammar, oracle_is_property=True,
+              nontrivial=lambda c, gd: True, max_report=2)
     return dict(search=combine_search(k.get('search'), table_after_search), assumptions=k.get('assumptions'), extra=k.get('extra'), rule=(k.get('rule', '') + '; ' if k.get('rule') else '') + 'random chains of 2-5 int->int operators (sync/hot, cuts) + ' + 'every catalogue operator x parameters x variants x raw scripts (exhaustive to length 2/3 over {-1,0,2,3}, three endings, '
                      'illegal suffixes N/C/E after the terminal, seeded longer scripts) x {sync, hot} source x external cut; '
                      'compared: kinds of delivered notifications + multiset of dropped notifications; oracle: Grammar on the implementation trace; '
